@@ -104,7 +104,10 @@ def plan(tier, seed):
     # S1: full alphabet
     L = 2 if q else 3
     for a in range(n):
-        jobs.append(('s1', L, a, 'prod'))
+        if L <= 2:
+            jobs.append(('s1', L, a, 'prod'))
+        else:
+            jobs += [('s1', L, a, 'prod', b) for b in range(n)]       # one job per two-symbol prefix
     jobs.append(('s1short', 0, 'prod', 0))
     jobs += [('s1short', 1, 'prod', k) for k in range(8)]
     if q:
@@ -128,10 +131,11 @@ def plan(tier, seed):
 def run_job(job, T):
     kind = job[0]
     if kind == 's1':
-        _, L, a, mode = job
+        _, L, a, mode = job[:4]
         full = L > 2
         opts = str_product(full) + opt_sets(1)
-        for tail in itertools.product(U.STR_SIGMA, repeat=L - 1):
+        second = [U.STR_SIGMA[job[4]]] if len(job) > 4 else None
+        for tail in (itertools.product(U.STR_SIGMA, repeat=L - 1) if second is None else itertools.product(second, *([U.STR_SIGMA] * (L - 2)))):
             s = U.STR_SIGMA[a] + ''.join(tail)
             if L <= 2:
                 check_string(T, 'strings', s, opts, opt_sets(1))
